@@ -247,6 +247,8 @@ class Run:
             nofail = True
             viol.append({"case": "(proof obligation or tie)", "reason": "no-failing-input-found",
                          "broken": broken, "searched": f"{self.evals} correspondence cases agreed with the specification"})
+        if os.environ.get("VERIF_DUMP"):
+            (BUILD / f"viol_{self.prop}.json").write_text(json.dumps(viol, indent=0, default=str))
         rc = 0
         if viol:
             h = hashlib.md5(json.dumps(viol[0], default=str, sort_keys=True).encode()).hexdigest()[:10]
@@ -271,11 +273,13 @@ class Run:
         if extra: cov.update(extra)
         ev = {"property_id": self.prop, "tier": self.tier if self.tier in ("quick", "thorough") else "quick", "seed": SEED, "level": level,
               "coverage": cov, "assumptions": assumptions, "wall_s": round(time.time() - self.t0, 2), "violations": len(viol)}
-        (ROOT / "evidence").mkdir(exist_ok=True)
+        # evidence/ describes runs against /repo itself; runs against another tree (self-tests with VERIF_REPO) write elsewhere
+        evdir = ROOT / "evidence" if os.path.realpath(REPO) == "/repo" else BUILD / "evidence-other-tree"
+        evdir.mkdir(parents=True, exist_ok=True)
         if self.only is None:
-            tmp = ROOT / "evidence" / f".{self.prop}.json.tmp"
+            tmp = evdir / f".{self.prop}.json.tmp"
             tmp.write_text(json.dumps(ev, indent=1, default=str))
-            os.replace(tmp, ROOT / "evidence" / f"{self.prop}.json")
+            os.replace(tmp, evdir / f"{self.prop}.json")
         for l in lines: print(l)
         sys.stdout.flush()
         return rc
